@@ -620,6 +620,7 @@ class Repo:
     if 'fedjax' not in self.modules:
       raise AnalysisError(f'no fedjax package under {self.root}')
     self._resolving = set()
+    canon.positionalise(self)
 
   # --- anchors
   def module(self, name: str) -> Module:
